@@ -320,7 +320,7 @@ impl GenState {
             }
             IntoIter => {
                 st.word = word(rng, len, b"nblscdrR", &[10, 10, 2, 2, 1, 1, 1, 1]);
-                st.c = rng.below(3) as usize;
+                st.c = rng.below(4) as usize;
             }
             New | DropBuf => st.b = rng.below(3) as usize,
             FromArray => {
